@@ -1,4 +1,5 @@
 import sys
+# unmarshalUDT *map[string]interface{}: null keeps the previous map
 p=sys.argv[1]+'/marshal.go'; s=open(p).read()
 old="""		} else if data == nil {
 			rv.Set(reflect.Zero(t))
